@@ -9,7 +9,7 @@ attribution) on every valuation of the fixed valuation sets.
 
 import json, signal
 import numpy
-from .. import core, terms as T, irspace, irtools
+from .. import core, terms as T, irspace, irtools, loopspace as LS
 
 LEVEL = 'exploration'
 RULE = ('every well-typed term of the stated profiles (alphabet of constructors x leaves x parameters, breadth-first by depth) '
@@ -36,8 +36,15 @@ PROFILES = {
 NPARTS = {'quick': {1: 1, 2: 24, 3: 400}, 'thorough': {1: 2, 2: 200, 3: 2000}}
 
 
+LOOP_CHUNK = 150
+
+
 def shards(tier, seed):
-    return irspace.shards(PROFILES[tier], NPARTS[tier])
+    out = []
+    n = len(LS.programs(tier))
+    for lo in range(0, n, LOOP_CHUNK):
+        out.append({'kind': 'loops', 'lo': lo, 'hi': min(n, lo + LOOP_CHUNK)})
+    return out + irspace.shards(PROFILES[tier], NPARTS[tier])
 
 
 class _Alarm(Exception):
@@ -211,7 +218,12 @@ def signature(term, fail):
 def run_shard(spec, tier, seed):
     irtools.quiet()
     res = core.ShardResult()
-    for term in irspace.shard_terms(spec['profile'], spec['level'], spec['part'], spec['nparts']):
+    if spec.get('kind') == 'loops':
+        terms = [t for fam, prog in LS.programs(tier)[spec['lo']:spec['hi']] for t in LS.flatten(prog)]
+    else:
+        terms = irspace.shard_terms(spec['profile'], spec['level'], spec['part'], spec['nparts'])
+    term = None
+    for term in terms:
         res.count('states')
         try:
             fail = check_term(term, res=res)
@@ -228,8 +240,8 @@ def run_shard(spec, tier, seed):
             continue
         key, m = signature(term, fail)
         res.violation(key, '{} :: {} (minimal failing subterm {})'.format(T.show(term), fail[1], T.show(m)), {'term': T.to_json(m), 'context': T.to_json(term)})
-    if spec['part'] == 0:
-        res.sample({'profile': spec['profile']['name'], 'level': spec['level'], 'example_term': T.show(term) if res.counters.get('states') else None})
+    if spec.get('part', 0) == 0 and term is not None:
+        res.sample({'profile': spec['profile']['name'] if 'profile' in spec else 'loop grammar', 'level': spec.get('level'), 'example_term': T.show(term)})
     return res
 
 
